@@ -213,6 +213,7 @@ type genOpts struct {
 	leftEdges         bool // spans may have a non-zero start edge (defect domain KF11-2)
 	edgeSpaces        bool // a space may directly follow a start edge / precede an end edge (defect domain KF11-5)
 	atomsInSpans      bool // atomic inlines may sit inside spans (defect domain KF11-6)
+	va                bool // vertical-align on spans and inline-blocks (judge-only stages)
 	spBr              bool // a space may directly precede <br> (defect domain KF11-1)
 	maxLeaves         int
 	maxWord           int
@@ -272,8 +273,11 @@ func (g *gen) content(n int) {
 				w := rng.Pick(g.r, g.g, g.g/2, 3*g.g/2, 2*g.g, 7, g.g+1)
 				h := rng.Pick(g.r, g.g/2, g.g, g.g, 2*g.g, g.g+5)
 				ml, mr := rng.Pick(g.r, 0, 0, 0, 3, g.g/2), rng.Pick(g.r, 0, 0, 0, 2, g.g/2)
+				if g.o.va {
+					h = rng.Pick(g.r, g.g/2, g.g, 2*g.g, 3*g.g, g.g+5, 5*g.g/2)
+				}
 				g.toks = append(g.toks, tok{k: tAtom, n: w + ml + mr, h: h,
-					html: fmt.Sprintf(`<i style="display:inline-block;width:%dpx;height:%dpx;margin-left:%dpx;margin-right:%dpx"></i>`, w, h, ml, mr)})
+					html: fmt.Sprintf(`<i style="display:inline-block;width:%dpx;height:%dpx;margin-left:%dpx;margin-right:%dpx%s"></i>`, w, h, ml, mr, g.valign())})
 				g.lastSpace = false
 				g.noLeaf = false
 				g.leaves++
@@ -289,7 +293,7 @@ func (g *gen) content(n int) {
 				}
 				mr, br, pr := rng.Pick(g.r, 0, 0, 3, g.g/2, g.g), rng.Pick(g.r, 0, 0, 1, 2), rng.Pick(g.r, 0, 0, 4, g.g/2)
 				st := fmt.Sprintf("margin:0 %dpx 0 %dpx;border:solid;border-width:0 %dpx 0 %dpx;padding:0 %dpx 0 %dpx", mr, ml, br, bl, pr, pl)
-				g.toks = append(g.toks, tok{k: tOpen, n: ml + bl + pl, html: `<span style="` + st + `">`})
+				g.toks = append(g.toks, tok{k: tOpen, n: ml + bl + pl, html: `<span style="` + st + g.valign() + `">`})
 				before := g.leaves
 				g.depth++
 				g.content(g.r.Range(1, 5))
@@ -316,6 +320,17 @@ func (g *gen) content(n int) {
 			}
 		}
 	}
+}
+
+func (g *gen) valign() string {
+	if !g.o.va {
+		return ""
+	}
+	v := rng.Pick(g.r, "", "", "top", "top", "bottom", "middle", "text-top", "baseline")
+	if v == "" {
+		return ""
+	}
+	return ";vertical-align:" + v
 }
 
 func genPara(r *rng.R, o genOpts, glyph int) para {
